@@ -432,6 +432,35 @@ def cache_check_guards_keyless(cache):
                 and isinstance(first.body[0].value, ast.Constant) and first.body[0].value.value is False)
 
 
+def comparator_right_requires_left(sym):
+    """`_required_variables_from_child_` of a comparison: a child OTHER than the left operand requires the variables of the
+    left operand (`required_vars.update(self.left._unique_variables_)` in the else-part of `if child is self.left:` of
+    BinaryOperator's method, or anywhere in an override of the method in Comparator)."""
+    def updates_with_left(node):
+        for c in _calls(node, 'update'):
+            for a in c.args:
+                for x in ast.walk(a):
+                    if isinstance(x, ast.Attribute) and x.attr == '_unique_variables_' and isinstance(x.value, ast.Attribute) \
+                            and x.value.attr == 'left' and isinstance(x.value.value, ast.Name) and x.value.value.id == 'self':
+                        return True
+        return False
+
+    def method(cls_name):
+        cls = _find(sym, ast.ClassDef, cls_name)
+        return next((n for n in cls.body if isinstance(n, ast.FunctionDef) and n.name == '_required_variables_from_child_'), None)
+    fn = method('BinaryOperator')
+    if fn is None:
+        raise Untranslatable('BinaryOperator._required_variables_from_child_ not found')
+    for n in ast.walk(fn):
+        if isinstance(n, ast.If) and isinstance(n.test, ast.Compare) and len(n.test.ops) == 1 \
+                and isinstance(n.test.ops[0], ast.Is) and isinstance(n.test.left, ast.Name) and n.test.left.id == 'child' \
+                and isinstance(n.test.comparators[0], ast.Attribute) and n.test.comparators[0].attr == 'left':
+            if any(updates_with_left(o) for o in n.orelse):
+                return True
+    over = method('Comparator')
+    return bool(over is not None and updates_with_left(over))
+
+
 def render():
     sym = _parse('symbolic.py')
     ent = _parse('entity.py')
@@ -511,6 +540,10 @@ def render():
     L.append('')
     L.append('/-- cache_data.py: `IndexedCache.check` begins with `if not self.keys: return False`. -/')
     L.append(f'def cacheCheckGuardsKeyless : Bool := {b(cache_check_guards_keyless(cache))}')
+    L.append('')
+    L.append('/-- symbolic.py: in `_required_variables_from_child_` the RIGHT operand of a comparison requires the variables of the')
+    L.append('    left operand (repair R36). -/')
+    L.append(f'def comparatorRightRequiresLeft : Bool := {b(comparator_right_requires_left(sym))}')
     L.append('')
     L.append('end Eql.Gen')
     return '\n'.join(L) + '\n'
